@@ -20,7 +20,7 @@ def main():
     cases = json.load(open(sys.argv[1]))
     pref = sys.argv[2] if len(sys.argv) > 2 else ''
     sh(['git', '-C', '/repo', 'worktree', 'remove', '--force', WT]); shutil.rmtree(WT, ignore_errors=True)
-    rc, out = sh(['git', '-C', '/repo', 'worktree', 'add', '--detach', WT, 'HEAD'])
+    rc, out = sh(['git', '-C', '/repo', 'worktree', 'add', '--detach', WT, os.environ.get('GO2LEAN_SELFTEST_BASE', 'HEAD')])
     if rc: sys.exit(out)
     env = dict(os.environ, VERIF_REPO=WT, GOFLAGS='-mod=mod', GOPROXY='off', GOSUMDB='off', GOTOOLCHAIN='local')
     results = []
